@@ -263,6 +263,7 @@ func c16Pairs(c *Ctx, pr *PropertyRun, prop string, keep func(what string) bool)
 		{"iCalendar UTC date-time", pkgCaldav, "(*dateWithUTCTime).MarshalText", "(*dateWithUTCTime).UnmarshalText", "(time.Time).Format", "time.Parse", true},
 		{"href", pkgInternal, "(*Href).MarshalText", "(*Href).UnmarshalText", "(*net/url.URL).String", "net/url.Parse", false},
 	}
+	quoteKinds := map[string]string{}
 	// the conditional headers are read with the same decoder
 	pairs = append(pairs, pair{"entity tag (conditional header)", pkgInternal, "(ETag).String", "(*ETag).UnmarshalText", "fmt.Sprintf", "strconv.Unquote", false})
 	for _, pa := range pairs {
@@ -296,13 +297,30 @@ func c16Pairs(c *Ctx, pr *PropertyRun, prop string, keep func(what string) bool)
 		r.Role("codec-pair")
 		eu := hasUse(calleeUses(c, enc, 2), pa.encCall)
 		du := hasUse(calleeUses(c, dec, 2), pa.decCall)
-		ok := eu != nil && du != nil
 		detail := ""
-		if ok && pa.encCall == "fmt.Sprintf" {
-			// the format must be exactly one %q verb
-			ok = len(eu.consts) > 0 && eu.consts[0] == "%q"
-			detail = "format " + fmt.Sprintf("%q", eu.consts)
+		if pa.encCall == "fmt.Sprintf" && pa.decCall == "strconv.Unquote" {
+			// Go quoting: %q and strconv.Quote (any text), %+q and
+			// strconv.QuoteToASCII (ASCII-only escapes) are all inverses of
+			// strconv.Unquote — but every announcement of a tag must use the
+			// SAME one, or the same tag is announced as two different strings
+			kind := ""
+			if eu != nil && len(eu.consts) > 0 && (eu.consts[0] == "%q" || eu.consts[0] == "%+q") {
+				kind = eu.consts[0]
+				detail = "format " + fmt.Sprintf("%q", eu.consts)
+			} else if q := hasUse(calleeUses(c, enc, 2), "strconv.Quote"); q != nil {
+				kind, eu = "%q", q
+				detail = "strconv.Quote"
+			} else if q := hasUse(calleeUses(c, enc, 2), "strconv.QuoteToASCII"); q != nil {
+				kind, eu = "%+q", q
+				detail = "strconv.QuoteToASCII"
+			}
+			if kind == "" {
+				eu = nil
+			} else {
+				quoteKinds[pa.what] = kind
+			}
 		}
+		ok := eu != nil && du != nil
 		if ok && pa.encCall == "(time.Time).Format" && pa.decCall == "net/http.ParseTime" {
 			ok = len(eu.consts) > 0 && eu.consts[0] == "Mon, 02 Jan 2006 15:04:05 GMT"
 			detail = "layout " + fmt.Sprintf("%q", eu.consts)
@@ -392,6 +410,25 @@ func c16Pairs(c *Ctx, pr *PropertyRun, prop string, keep func(what string) bool)
 		r.Ob(ok)
 		if !ok {
 			r.Violation("pair|status line", p.Pos(sm.Pos()), "status line: MarshalText no longer writes 'HTTP/x <code> <text>' as three space-separated fields that UnmarshalText reads back with SplitN(\" \", 3) and Atoi of field 1", nil)
+		}
+	}
+	// one quoting for every announcement of a tag
+	if len(quoteKinds) >= 2 {
+		r.Role("one-quoting")
+		first, same := "", true
+		var names []string
+		for w, k := range quoteKinds {
+			names = append(names, w+"="+k)
+			if first == "" {
+				first = k
+			} else if k != first {
+				same = false
+			}
+		}
+		sort.Strings(names)
+		r.Ob(same)
+		if !same {
+			r.Violation("pair|entity tag quoting differs", "-", fmt.Sprintf("the entity tag is quoted differently in different places (%s): the tag announced in the ETag header and the one in DAV:getetag are two different strings for a tag with a non-ASCII character", strings.Join(names, ", ")), nil)
 		}
 	}
 	r.RequireRole("codec-pair", "etag-header-written", "etag-header-read")
